@@ -118,7 +118,7 @@ func propC12(ch core.Chooser, st *core.Stats) error {
 		if inHook || hookErr != nil || budget <= 0 {
 			return
 		}
-		if !(e.Op == "open" || e.Op == "read" || e.Op == "write" || e.Op == "close") {
+		if !(e.Op == "open" || e.Op == "read" || e.Op == "write" || e.Op == "close" || e.Op == "mkdir" || e.Op == "stat" || e.Op == "readdir") {
 			return
 		}
 		inHook = true
